@@ -133,6 +133,7 @@ type server struct {
 	reqs    []*sreq
 	pending []*sreq
 	closed  bool // the server closed, or saw the client close, the connection
+	stalled bool // the server went silent for good: it keeps reading requests and never answers again
 	sent    []*sent
 	out     chan wop
 	nonce   int64
@@ -248,7 +249,6 @@ type rig struct {
 	maxWire   int
 	maxWireAt int
 	wireTrace []string
-	openErr   error
 }
 
 func (r *rig) allCalls() []*call {
@@ -308,7 +308,7 @@ func run(c *gx.Ctl, p *Params) *gx.Outcome {
 	conf.Net.Proxy.Dialer = dialer{cli}
 	r.broker = sarama.NewBroker("b1:9092")
 	if err := r.broker.Open(conf); err != nil {
-		r.openErr = err
+		panic(fmt.Sprintf("brokrig: Broker.Open: %v", err)) // harness problem: reported as engine error, never a verdict
 	}
 
 	c.Providers = append(c.Providers, r.actors)
@@ -316,9 +316,6 @@ func run(c *gx.Ctl, p *Params) *gx.Outcome {
 	c.Loop(func() bool {
 		r.mu.Lock()
 		defer r.mu.Unlock()
-		if r.openErr != nil {
-			return true
-		}
 		for _, cl := range r.allCalls() {
 			if !cl.done {
 				return false
@@ -360,9 +357,6 @@ func (r *rig) wire() (int, []string) {
 func (r *rig) actors() []gx.Actor {
 	r.mu.Lock()
 	defer r.mu.Unlock()
-	if r.openErr != nil {
-		return nil
-	}
 	if n, ids := r.wire(); n > r.maxWire {
 		r.maxWire, r.maxWireAt, r.wireTrace = n, r.step, ids
 	}
@@ -469,7 +463,7 @@ func (r *rig) answerActor(rank int) *gx.Actor {
 	s := r.srv
 	s.mu.Lock()
 	defer s.mu.Unlock()
-	if s.closed || len(s.pending) == 0 {
+	if s.closed || s.stalled || len(s.pending) == 0 {
 		return nil
 	}
 	q := s.pending[0]
@@ -479,7 +473,7 @@ func (r *rig) answerActor(rank int) *gx.Actor {
 	}
 	serverFaulted := false
 	for _, f := range r.faults {
-		if f != "read-timeout" {
+		if f != "read-timeout" && f != "stall" {
 			serverFaulted = true
 		}
 	}
@@ -555,6 +549,15 @@ func (r *rig) answerActor(rank int) *gx.Actor {
 				take("len-neg", true)
 				s.out <- wop{data: hdr(-1, q.corr)}
 			}},
+			gx.Variant{Name: "stall", Do: func() { // silence for ever: this and all later requests stay unanswered (they keep counting as on the wire)
+				r.mu.Lock()
+				r.step++
+				r.faults = append(r.faults, "stall") // the connection fault itself is the read timeout that must follow
+				r.mu.Unlock()
+				s.mu.Lock()
+				s.stalled = true
+				s.mu.Unlock()
+			}},
 			gx.Variant{Name: "close", Do: func() { // abrupt close, nothing sent
 				take("close", true)
 				s.mu.Lock()
@@ -589,7 +592,7 @@ func (r *rig) digest() string {
 	for _, q := range s.pending {
 		sb.WriteString(q.callID + ",")
 	}
-	fmt.Fprintf(&sb, "|sc=%v", s.closed)
+	fmt.Fprintf(&sb, "|sc=%v%v", s.closed, s.stalled)
 	s.mu.Unlock()
 	fmt.Fprintf(&sb, "|f=%v|cl=%v%v", r.faults, r.closeStarted, r.closeDone)
 	return sb.String()
@@ -609,10 +612,6 @@ func (r *rig) judge() *gx.Outcome {
 	p := r.p
 	o := &gx.Outcome{}
 	var det strings.Builder
-	if r.openErr != nil {
-		o.Violate(Prop, "rig-open-failed", "Broker.Open: %v", r.openErr)
-		return o
-	}
 	s := r.srv
 	s.mu.Lock()
 	defer s.mu.Unlock()
@@ -624,8 +623,9 @@ func (r *rig) judge() *gx.Outcome {
 	for _, q := range s.reqs {
 		fmt.Fprintf(&det, "server: request #%d corr=%d %s for %s -> %s\n", q.seq, q.corr, q.kind, q.callID, map[bool]string{true: "never answered", false: q.answered}[q.answered == ""])
 	}
-	if s.decErr != "" {
-		o.Violate(Prop, "server-cannot-decode-request", "the server could not decode a request frame: %s", s.decErr)
+	if s.decErr != "" { // not a clause of the property: information only (the calls' fate is judged below)
+		o.Stat("info:server-cannot-decode-request")
+		fmt.Fprintf(&det, "INFO the server could not decode a request frame: %s\n", s.decErr)
 	}
 	after := r.faultKind
 	if after == "" {
@@ -673,10 +673,9 @@ func (r *rig) judge() *gx.Outcome {
 	}
 	if p.Close && r.closeStarted && !r.closeDone {
 		obs = append(obs, "close=HANGS")
-		if len(hung) == 0 {
-			// Close itself is C12's subject; here it only matters as "a later call": report separately, specific signature
-			o.Violate(Prop, fmt.Sprintf("close-hangs after-fault=%s", after), "Broker.Close racing with calls never returned although every call did; first connection fault: %s", after)
-		}
+		// Close itself is C12's subject, not a clause of C14: information only
+		o.Stat("info:close-hangs")
+		fmt.Fprintf(&det, "INFO Broker.Close never returned (calls hung: %v)\n", hung)
 	} else if p.Close {
 		obs = append(obs, "close="+errClass(r.closeErr))
 	}
@@ -684,9 +683,10 @@ func (r *rig) judge() *gx.Outcome {
 		o.Violate(Prop, fmt.Sprintf("wire-exceeds-max-open-requests max=%d observed=%d", p.Max, r.maxWire),
 			"Net.MaxOpenRequests=%d but at the decision point after step %d the server had fully received %d requests that were unanswered and whose callers were still waiting: %v", p.Max, r.maxWireAt, r.maxWire, r.wireTrace)
 	}
-	for _, pn := range r.c.Panics {
+	for _, pn := range r.c.Panics { // information only: what the panic does to the calls is judged above
 		first, _, _ := strings.Cut(pn, "\n")
-		o.Violate(Prop, "panic-in-broker", "panic in a sarama goroutine: %s", first)
+		o.Stat("info:panic-in-sarama-goroutine")
+		fmt.Fprintf(&det, "INFO panic in a sarama goroutine: %s\n", first)
 	}
 	obs = append(obs, fmt.Sprintf("wire=%d", r.maxWire))
 	o.Obs = strings.Join(obs, " ")
